@@ -1124,7 +1124,23 @@ unmodelled_v!(bigdecimal::num_bigint::BigInt, "BigInt", |r| {
     bigdecimal::num_bigint::BigInt::from_signed_bytes_be(&bytes)
 });
 unmodelled_v!(bigdecimal::BigDecimal, "BigDecimal", |r| {
-    let a = r.next() as i64;
-    let scale = r.below(30) as i64 - 10;
-    bigdecimal::BigDecimal::new(bigdecimal::num_bigint::BigInt::from(a), scale)
+    // unscaled values of every size against scales on both sides of the digit count: plain notation, leading
+    // fractional zeros (scientific notation below 1e-6), negative scales (exponent notation), zero
+    let a = match r.below(6) {
+        0 => bigdecimal::num_bigint::BigInt::from(r.below(10) as i64),
+        1 => bigdecimal::num_bigint::BigInt::from(r.below(2000) as i64 - 1000),
+        2 => {
+            let n = 9 + r.below(12) as usize;
+            let bytes: Vec<u8> = (0..n).map(|_| r.next() as u8).collect();
+            bigdecimal::num_bigint::BigInt::from_signed_bytes_be(&bytes)
+        }
+        _ => bigdecimal::num_bigint::BigInt::from(r.next() as i64),
+    };
+    let scale = match r.below(5) {
+        0 => 0,
+        1 => r.below(12) as i64,
+        2 => -(r.below(30) as i64),
+        _ => r.below(70) as i64 - 20,
+    };
+    bigdecimal::BigDecimal::new(a, scale)
 });
